@@ -30,6 +30,8 @@
 (* remove_circuit() leaves the circuit in the table for remove_tunnel_delay seconds: `due` is the  *)
 (* queue of pending removal timers, RemovalDue = the earliest one fires and the circuit leaves the *)
 (* table.  Sends inside that window are the "circuit closing while the queue is non-empty" case.   *)
+(* Expire = time does it: after max_time_inactive the periodic clean-up takes every ready circuit  *)
+(* down the same way.                                                                              *)
 EXTENDS Naturals, Sequences, FiniteSets, TLC, SequencesExt
 
 CONSTANTS Pfx,           \* overlay prefixes that send through the endpoint
@@ -45,7 +47,8 @@ CONSTANTS Pfx,           \* overlay prefixes that send through the endpoint
           CandInit,      \* initial values of cand (the life-cycle configurations start without candidates)
           CloseWays,     \* the ways a circuit is taken down in this configuration (subset of AllCloseWays)
           ReasonDecides, \* negative control: the circuit only reports CLOSING when a reason text was given
-          ReadyInit      \* a behaviour starts with a ready 1-hop circuit ending in an IPv8 exit in the table
+          ReadyInit,     \* a behaviour starts with a ready 1-hop circuit ending in an IPv8 exit in the table
+          Expiry         \* circuits are taken down by the periodic clean-up after max_time_inactive as well
 
 VARIABLES anon,      \* [Pfx -> BOOLEAN] the per-prefix switch = TunnelEndpoint.settings (missing = FALSE)
           insts,     \* overlay instances on the endpoint in order of construction: [p, req, loaded]; req = this
@@ -260,6 +263,19 @@ RemovalDue == /\ due # <<>>
               /\ due' = Tail(due)
               /\ EnvStep /\ UNCHANGED <<anon, insts, asked, attached, hopsCfg, ncirc>>
 
+(* max_time_inactive passes without incoming traffic and the periodic clean-up runs (do_circuits ->   *)
+(* do_remove): the removal timers that were pending have fired on the way (remove_tunnel_delay is      *)
+(* shorter), every circuit that reports READY is taken down by remove_circuit(id, "no activity")       *)
+Expire == /\ Expiry
+          /\ due # <<>> \/ \E i \in DOMAIN circuits : StateReady(circuits[i])
+          /\ LET Stays(c) == \A k \in DOMAIN due : due[k] # c.id
+                  kept     == SelectSeq(circuits, Stays)
+                  idle     == SelectSeq(kept, StateReady)
+              IN /\ circuits' = [i \in DOMAIN kept |-> IF StateReady(kept[i])
+                                                        THEN [kept[i] EXCEPT !.closing = TRUE, !.st = TRUE] ELSE kept[i]]
+                 /\ due' = [i \in DOMAIN idle |-> idle[i].id]
+          /\ EnvStep /\ UNCHANGED <<anon, insts, asked, attached, hopsCfg, ncirc>>
+
 Next == \/ \E i \in 1..MaxInst : SendAnon(i)
         \/ \E i \in 1..MaxInst : SendPlain(i)
         \/ \E i \in 1..MaxInst : FillQueue(i)
@@ -273,6 +289,7 @@ Next == \/ \E i \in 1..MaxInst : SendAnon(i)
         \/ \E i \in 1..MaxCid, w \in CloseWays : CircuitClosing(i, w)
         \/ \E i \in 1..MaxCid : CircuitRemoved(i)
         \/ RemovalDue
+        \/ Expire
 
 Spec == Init /\ [][Next]_vars
 
